@@ -58,7 +58,7 @@ def models():
     return m
 
 
-INLINE = [r"^TableTablets::(add_tablet|new)$"]
+INLINE = [r"(^|::)TableTablets::(add_tablet|new)$"]
 
 
 def table_flag(ctx, mf, N):
